@@ -220,6 +220,12 @@ func (s *Sched) threadMain(t *thread, f func()) {
 				return
 			}
 		}
+		if s.aborted {
+			// the execution was aborted before this thread ran (or while it ran to its end): every
+			// thread has been released already, there is nothing left to schedule
+			t.done = true
+			return
+		}
 		// normal exit
 		t.done = true
 		t.pend = op{}
